@@ -8,9 +8,9 @@ import (
 	"go/constant"
 	"go/token"
 	"os"
+	"path/filepath"
 	"regexp"
 	"sort"
-	"path/filepath"
 	"strconv"
 	"strings"
 )
@@ -31,6 +31,7 @@ func genB1T6() {
 	g.def("minTryteValue", "Int", load(filepath.Join(iotaGoDir(), "consts")).intConst("MinTryteValue"))
 	// loop shape of Decode: `for j := 0; j <= len(src)-tritsPerByte; j += tritsPerByte`, then the length test
 	g.src(p, "Encode", "EncodeToTrytes", "Decode", "DecodeTrytes")
+	g.rest(p, "b1t6")
 	// the iota.go copy used by pow and migration must be the same code
 	ig := load(filepath.Join(iotaGoDir(), "encoding", "b1t6"))
 	ok, why := sameFuncs(normalizedFuncs(p, "b1t6.go"), normalizedFuncs(ig, "b1t6.go"),
@@ -67,6 +68,7 @@ func genB1T6() {
 	g.def("b1t8Masks", "List Nat", "["+strings.Join(masks, ", ")+"]")
 	g.def("b1t8Shifts", "List Nat", "["+strings.Join(shifts, ", ")+"]")
 	g.src(q, "Encode", "Decode")
+	g.rest(q, "b1t8")
 	g.write()
 }
 
@@ -121,6 +123,7 @@ func genBip32Path() {
 	ss, _ := strconv.Unquote(sp[1].(*ast.BasicLit).Value)
 	g.def("splitSep", "List Nat", leanBytes(ss))
 	g.src(p, "ParsePath", "Path.String", "Path.MarshalText", "Path.UnmarshalText", "parseUint31")
+	g.rest(p, "bip32path")
 	g.write()
 }
 
@@ -153,6 +156,7 @@ func genMerkle() {
 	g.def("leafHashPrefix", "Int", p.intConst("LeafHashPrefix"))
 	g.def("nodeHashPrefix", "Int", p.intConst("NodeHashPrefix"))
 	g.src(p, "Hasher.EmptyRoot", "Hasher.Hash", "Hasher.hashLeaf", "Hasher.hashNode", "largestPowerOfTwo")
+	g.rest(p, "merkle")
 	g.write()
 }
 
@@ -177,6 +181,8 @@ func genBech32() {
 		"newEncoding", "encoding.encode", "encoding.decode",
 		"bech32CreateChecksum", "bech32Polymod", "bech32HrpExpand", "bech32VerifyChecksum")
 	g.src(b, "Encode", "Decode", "EncodedLen", "DecodedLen")
+	g.rest(b, "base32")
+	g.rest(p, "bech32")
 	g.write()
 }
 func genBip39() {
@@ -205,6 +211,9 @@ func genBip39() {
 		"ParseMnemonic", "Mnemonic.String", "Mnemonic.MarshalText", "Mnemonic.UnmarshalText",
 		"SetWordList", "RegisterWordList", "init")
 	g.src(il, "newWordList", "wordList.Contains", "wordList.Word", "wordList.Index", "English", "Japanese")
+	g.rest(p, "bip39")
+	g.rest(il, "wordlists_glue")
+	g.rest(wl, "wordlist")
 	for _, lang := range []string{"english", "japanese"} {
 		words := strings.Fields(il.stringConst(lang))
 		body := strings.Join(words, "\n") + "\n"
@@ -245,6 +254,7 @@ func genCurl() {
 	g.def("buildTagNoasm", "String", leanString(buildConstraint(filepath.Join(*repo, "pkg/curl/transform_noasm.go"))))
 	g.def("buildTagAsmS", "String", leanString(buildConstraint(filepath.Join(*repo, "pkg/curl/transform_amd64.s"))))
 	g.def("noasmBody", "String", leanString(normWS(stripComments(p.srcOfFile("transform_noasm.go", "transform")))))
+	g.rest(p, "curl")
 	g.write()
 
 	a := newGen("CurlAsm", "Iota.Model.Asm")
@@ -275,6 +285,8 @@ func genPow() {
 	g.src(p1, "Score", "trailingZeros", "encodeNonce", "New", "Worker.Mine", "Worker.worker", "checkStateTrits")
 	g.src(p2, "Score", "difficulty", "encodeNonce", "toInt", "tritToUint", "hexToInt", "New", "Worker.Mine",
 		"sufficientTrailingZeros", "targetHash", "Worker.worker", "checkStateTrits", "stateToInt")
+	g.rest(p1, "pow")
+	g.rest(p2, "powv2")
 	g.write()
 }
 func genMisc() {
@@ -301,6 +313,9 @@ func genSlip10() {
 		"PrivateKey.Public", "PrivateKey.Shift", "PublicKey.Bytes", "PublicKey.IsPrivate", "PublicKey.Public", "PublicKey.Shift")
 	g.src(ed, "ed25519Curve.NewPrivateKey", "ed25519Curve.HmacKey", "Seed.Bytes", "Seed.IsPrivate", "Seed.Public", "Seed.HardenedOnly",
 		"Seed.Shift", "PublicKey.Bytes", "PublicKey.IsPrivate", "PublicKey.Public", "PublicKey.HardenedOnly", "PublicKey.Shift")
+	g.rest(p, "slip10")
+	g.rest(el, "elliptic")
+	g.rest(ed, "eddsa")
 	g.write()
 
 	s := newGen("Secp256k1")
@@ -310,6 +325,7 @@ func genSlip10() {
 	}
 	s.src(bt, "koblitzCurve.IsOnCurve", "koblitzCurve.affineFromJacobian", "zForAffine", "koblitzCurve.Add", "koblitzCurve.addJacobian",
 		"koblitzCurve.Double", "koblitzCurve.doubleJacobian", "koblitzCurve.ScalarMult", "koblitzCurve.ScalarBaseMult", "init")
+	s.rest(bt, "btccurve")
 	s.def("copiesIdentical", "Bool", boolLean(sameFile(filepath.Join(bt.dir, "secp256k1.go"), filepath.Join(bt2.dir, "secp256k1.go"))))
 	s.write()
 }
@@ -356,6 +372,8 @@ func genEd() {
 	g.def("vrfNonCanonicalSignBytes", "List (List Int)", v.compositeInts(v.varExpr("nonCanonicalSignBytes")))
 	g.src(v, "Prove", "ProofToHash", "Verify", "encodeToCurveTryAndIncrement", "challengeGeneration", "validateKey",
 		"Proof.Hash", "Proof.Bytes", "Proof.SetBytes", "Proof.UnmarshalBinary", "newPointFromCanonicalBytes", "isCanonicalY")
+	g.rest(p, "ed25519")
+	g.rest(v, "vrf")
 	g.write()
 }
 
@@ -382,6 +400,8 @@ func genAddress() {
 	g.src(m, "Encode", "Decode")
 	gd := load(filepath.Join(iotaGoDir(), "guards"))
 	g.src(gd, "IsTrytesOfExactLength")
+	g.rest(p, "address")
+	g.rest(m, "migration")
 	g.write()
 }
 
